@@ -378,9 +378,34 @@ func resolveSvc(r *core.Run, rule string) *svcAnchors {
 	a.Mu = uniq(func(v *types.Var) bool { return isNamed(v.Type(), "sync.Mutex") }, "S.mu")
 	a.Cond = uniq(func(v *types.Var) bool { return isNamed(v.Type(), "sync.Cond") }, "S.cond")
 	a.WG = uniq(func(v *types.Var) bool { return isNamed(v.Type(), "sync.WaitGroup") }, "S.wg")
+	isWord := func(t types.Type) bool { return isNamed(t, "int32") || isNamed(t, "sync/atomic.Int32") }
+	// the state word: an int32 / atomic.Int32 member, or a member of a small struct type of the
+	// package that wraps exactly one such word (type stateWord struct{ v int32 } with methods)
+	wrapped := func(t types.Type) (core.Field, bool) {
+		nt, ok := t.(*types.Named)
+		if !ok || nt.Obj().Pkg() == nil || nt.Obj().Pkg() != root.Types {
+			return core.Field{}, false
+		}
+		st, ok := nt.Underlying().(*types.Struct)
+		if !ok || st.NumFields() != 1 || !isWord(st.Field(0).Type()) {
+			return core.Field{}, false
+		}
+		return core.Field{Struct: nt.Obj().Name(), Name: st.Field(0).Name()}, true
+	}
 	a.State = uniq(func(v *types.Var) bool {
-		return isNamed(v.Type(), "int32") || isNamed(v.Type(), "sync/atomic.Int32")
+		if isWord(v.Type()) {
+			return true
+		}
+		_, ok := wrapped(v.Type())
+		return ok
 	}, "S.state")
+	for i := 0; i < st.NumFields(); i++ {
+		if st.Field(i).Name() == a.State.Name {
+			if f, ok := wrapped(st.Field(i).Type()); ok {
+				a.State = f
+			}
+		}
+	}
 	a.NC = uniq(func(v *types.Var) bool { return core.TypeName(v.Type()) == "Conn" }, "S.nc")
 	a.InCh = uniq(func(v *types.Var) bool { _, ok := v.Type().Underlying().(*types.Chan); return ok }, "S.inCh")
 	a.RWork = uniq(func(v *types.Var) bool {
